@@ -18,6 +18,7 @@ TRACE_ALL = []    # every intercepted operation of the run
 def install(counter, fault=None):
     from kojen import cgen
     real_open, real_replace, real_makedirs, real_remove, real_copy = builtins.open, os.replace, os.makedirs, os.remove, shutil.copy
+    real_rename, real_unlink, real_sendfile = os.rename, os.unlink, getattr(shutil, "_USE_CP_SENDFILE", None)
     state = {"in_co": False}
     counter.setdefault("n", 0)
     counter.setdefault("co", 0)
@@ -111,6 +112,20 @@ def install(counter, fault=None):
         op("close", str(dst))
         return real_copy(src, dst, *a, **k)
 
+    def my_rename(src, dst, *a, **k):
+        op("rename", str(src), str(dst))
+        return real_rename(src, dst, *a, **k)
+
+    def my_unlink(p, *a, **k):
+        op("remove", str(p))
+        return real_unlink(p, *a, **k)
+
+    # other routes to the same primitives (os.rename, os.unlink, and shutil.move / copyfile, which are built from them and from open):
+    # without the kernel fast path a copy is open + write(s) + close, so that an interruption inside it is a fault point like any other
+    os.rename = my_rename
+    os.unlink = my_unlink
+    if real_sendfile is not None:
+        shutil._USE_CP_SENDFILE = False
     builtins.open = my_open
     os.replace = my_replace
     os.makedirs = my_makedirs
@@ -131,6 +146,9 @@ def install(counter, fault=None):
 
     def uninstall():
         builtins.open, os.replace, os.makedirs, os.remove, shutil.copy = real_open, real_replace, real_makedirs, real_remove, real_copy
+        os.rename, os.unlink = real_rename, real_unlink
+        if real_sendfile is not None:
+            shutil._USE_CP_SENDFILE = real_sendfile
         cgen.CGenerator.createoutput = real_co
         if hasattr(cgen, "open"):
             del cgen.open
